@@ -531,6 +531,14 @@ func (c *Ctx) bin(op Op, a, b *Term) *Term {
 		if b.IsConst() && b.C == 0 {
 			return a
 		}
+		// (x >> k1) >> k2 = x >> (k1+k2); same for <<
+		if (op == OShl || op == OLShr) && b.IsConst() && a.Op == op && a.Args[1].IsConst() {
+			k := a.Args[1].C + b.C
+			if k >= uint64(w) {
+				return c.BVConst(0, w)
+			}
+			return c.bin(op, a.Args[0], c.BVConst(k, w))
+		}
 		if b.IsConst() && b.C >= uint64(w) && op != OAShr {
 			return c.BVConst(0, w)
 		}
@@ -605,12 +613,18 @@ func (c *Ctx) cmp(op Op, a, b *Term) *Term {
 		if b.IsConst() && b.C == 0 {
 			return c.False
 		}
+		if a.IsConst() && a.C == mask(w) {
+			return c.False
+		}
 		// zext(x) < k with k > max(x)
 		if b.IsConst() && a.Op == OZExt && a.Args[0].S.W < 64 && b.C > mask(a.Args[0].S.W) {
 			return c.True
 		}
 	case OULE:
 		if a.IsConst() && a.C == 0 {
+			return c.True
+		}
+		if b.IsConst() && b.C == mask(w) {
 			return c.True
 		}
 		if b.IsConst() && a.Op == OZExt && a.Args[0].S.W < 64 && b.C >= mask(a.Args[0].S.W) {
